@@ -185,7 +185,27 @@ impl Ctx {
             }
             self.begin_scenario(idx);
             let mut rng = Rng::derive(self.seed, prop_salt(&self.prop), idx, 0x5ce7);
-            f(self, idx, &mut rng);
+            let r = {
+                let this = &mut *self;
+                let f = &mut f;
+                let rng = &mut rng;
+                crate::util::catch(move || f(this, idx, rng))
+            };
+            if let Err(p) = r {
+                // A panic that escaped a scenario: hashbrown's own debug assertions and unexpected library
+                // panics are violations; a panic raised by harness code is a harness error (inconclusive).
+                let lp = crate::util::last_panic();
+                let msg = if crate::util::is_injected(&p) { "injected panic escaped".to_string() } else { lp.clone() };
+                let at = lp.rsplit(" at ").next().unwrap_or("");
+                if (at.starts_with("src/") || at.contains("harness/src/")) && !crate::util::is_injected(&p) {
+                    println!("HBV-HARNESS-ERROR scenario {} panicked in harness code: {}", idx, msg);
+                    self.write_summary(None);
+                    let _ = std::io::stdout().flush();
+                    std::process::exit(4);
+                }
+                crate::viol!("panic escaped from the library during scenario {}: {}", idx, msg);
+                self.leak_ok = true;
+            }
             self.end_scenario();
             k += 1;
             if self.only.is_some() {
